@@ -16,6 +16,7 @@ import (
 //	       falls, so onvalid rules have edges to fire on; SinglePipelineSimulate terminates on it)
 //	count  free running counter on o0 (plain r2o: valid never rises), inputs are ignored
 //	two    two outputs: o0 follows i0, o1 follows i1+1 (plain i2r / r2o / inc)
+//	three  three outputs, two inputs (more processor outputs than processor inputs)
 //	pipe2  handshaking two-output pipeline: o0 = i0, o1 = i1+1
 type machineDef struct {
 	Name string
@@ -30,6 +31,9 @@ var machineDefs = []machineDef{
 		[]string{"rset r0 5", "inc r0", "r2o r0 o0", "j 1"}},
 	{"two", bmgen.ArchSpec{Rsize: 8, R: 1, N: 2, M: 2, L: 0, O: 3, Ops: []string{"i2r", "r2o", "inc", "j"}},
 		[]string{"i2r r0 i0", "r2o r0 o0", "i2r r1 i1", "inc r1", "r2o r1 o1", "j 0"}},
+	// three: more outputs than inputs (o0 = i0, o1 = i0+1, o2 = i0+2): the internal objects p0o0..p0o2 outnumber p0i0..p0i1
+	{"three", bmgen.ArchSpec{Rsize: 8, R: 1, N: 2, M: 3, L: 0, O: 3, Ops: []string{"i2r", "r2o", "inc", "j"}},
+		[]string{"i2r r0 i0", "r2o r0 o0", "inc r0", "r2o r0 o1", "inc r0", "r2o r0 o2", "j 0"}},
 	// pipe2 is used by the library path only (SinglePipelineSimulate needs every output to handshake)
 	{"pipe2", bmgen.ArchSpec{Rsize: 8, R: 1, N: 2, M: 2, L: 0, O: 3, Ops: []string{"i2rw", "r2owa", "inc", "j"}},
 		[]string{"i2rw r0 i0", "r2owa r0 o0", "i2rw r1 i1", "inc r1", "r2owa r1 o1", "j 0"}},
